@@ -97,3 +97,7 @@ func (s *Seq) Bind() func() {
 	vs.Bind(s)
 	return vs.Unbind
 }
+
+func (s *Seq) Spawn(fn func()) bool                    { return false }
+func (s *Seq) Point(label string) bool                 { return false }
+func (s *Seq) WaitZero(word *int32, label string) bool { return false }
